@@ -119,8 +119,8 @@ or the empty pattern coexists with a pattern of length >= 2). Distinct = distinc
         "x86-64 with SSSE3/AVX2, features std+perf-literal",
         "enumerated sub-run is exhaustive only within its stated bounds",
     ],
-    cases_quick: 240_000,
-    cases_thorough: 4_000_000,
+    cases_quick: 720_000,
+    cases_thorough: 6_000_000,
     strategy: c01_strategy,
     check: c01_check,
     extra: Some(c01_extra),
@@ -196,8 +196,8 @@ Non-trivial = two occurrences in the span share an end offset, or one occurrence
         "reference model encodes: standard = smallest end, longest at that end, first supplied among identical patterns",
         "enumerated sub-run is exhaustive only within its stated bounds",
     ],
-    cases_quick: 240_000,
-    cases_thorough: 4_000_000,
+    cases_quick: 720_000,
+    cases_thorough: 6_000_000,
     strategy: c02_strategy,
     check: c02_check,
     extra: Some(c02_extra),
@@ -268,8 +268,8 @@ Non-trivial = at least 2 occurrences and (two share an end offset, or the empty 
         "reference model enumerates occurrences quadratically",
         "the 3 extra steps after exhaustion sample 'keeps reporting no match'",
     ],
-    cases_quick: 240_000,
-    cases_thorough: 4_000_000,
+    cases_quick: 720_000,
+    cases_thorough: 6_000_000,
     strategy: c03_strategy,
     check: c03_check,
     extra: Some(c03_extra),
@@ -340,8 +340,8 @@ pub const C09: PropDef = PropDef {
 Checked APIs: try_find, try_find_iter, stepwise try_find_overlapping (standard kind), is_match, earliest. Oracle: reference model restricted to occurrences starting at the search start. \
 Non-trivial = an occurrence exists that starts after the search start and some pattern is a proper suffix of another (inherited matches exist). Distinct = distinct case fingerprint.",
     assumptions: &["reference model; anchored iterator = repeated anchored search with the empty-match rule"],
-    cases_quick: 240_000,
-    cases_thorough: 4_000_000,
+    cases_quick: 720_000,
+    cases_thorough: 6_000_000,
     strategy: c09_strategy,
     check: c09_check,
     extra: Some(c09_extra),
@@ -379,10 +379,10 @@ fn c11_strategy(_tier: Tier) -> BoxedStrategy<Case> {
     gen::search_case(SearchOpts {
         prop: "C11",
         cfg: CfgOpts { casei: 2, anchored: 1, ..CfgOpts::default() },
-        pats: PatOpts { w_empty: 4, max_class: 1, long: true, w_shapes: 4, w_adversarial: 0, w_fanout: 0 },
+        pats: PatOpts { w_empty: 4, max_class: 1, long: true, w_shapes: 8, w_adversarial: 0, w_fanout: 0 },
         hay: HayOpts { size_class: 1 },
         full_span_only: false,
-        alphabets: vec![(50, gen::ALPHA_CASE), (25, gen::ALPHA_HIGHCASE), (10, gen::ALPHA_TEXT), (8, gen::ALPHA_FULL), (7, gen::ALPHA_NYBBLE)],
+        alphabets: vec![(40, gen::ALPHA_CASE), (20, gen::ALPHA_LETTERMIX), (18, gen::ALPHA_HIGHCASE), (10, gen::ALPHA_TEXT), (7, gen::ALPHA_FULL), (5, gen::ALPHA_NYBBLE)],
         no_empty: false,
     })
 }
@@ -414,8 +414,8 @@ all of find/iter/overlapping/is_match/earliest, anchored and unanchored, against
 Enumerated: all lists of <=2 patterns of length <=2 over {a,A,@} x all haystacks x spans. \
 Non-trivial = the reported match exists only because of folding (haystack bytes differ from the pattern bytes), or the haystack contains a boundary byte and there is at least one occurrence. Distinct = distinct case fingerprint.",
     assumptions: &["reference model folds exactly A-Z to a-z"],
-    cases_quick: 240_000,
-    cases_thorough: 4_000_000,
+    cases_quick: 720_000,
+    cases_thorough: 6_000_000,
     strategy: c11_strategy,
     check: c11_check,
     extra: Some(c11_extra),
@@ -483,8 +483,8 @@ pub const C14: PropDef = PropDef {
 earliest mode returns a genuine occurrence whose end is <= the end of the normal match, None iff the normal search is None, equal to the normal result under standard semantics. \
 Non-trivial = the earliest result differs from the normal result, or a prefilter-shaped pattern list with the prefilter enabled has at least one occurrence. Distinct = distinct case fingerprint.",
     assumptions: &["earliest is checked as a validity predicate (several answers are allowed)"],
-    cases_quick: 200_000,
-    cases_thorough: 3_000_000,
+    cases_quick: 600_000,
+    cases_thorough: 6_000_000,
     strategy: c14_strategy,
     check: c14_check,
     extra: Some(c14_extra),
